@@ -42,8 +42,13 @@ def _v(x):
     return out
 
 
+SKIPPED = []      # virocon functions of the current tree that could not be executed in constant mode (last run)
+
+
 def run(seed=0):
     fails = []
+    skipped = []
+    SKIPPED[:] = []
     rng = np.random.default_rng(1234 + seed)
     E = sym.Engine()
     sym.set_engine(E)
@@ -159,26 +164,37 @@ def run(seed=0):
             arr = rng.integers(0, 40, size=shape) / 128.0
             lim = float(rng.integers(8, 140)) / 128.0
             n_cases += 1
-            with warnings.catch_warnings():
-                warnings.simplefilter("ignore")
-                try:
-                    r1 = C.HighestDensityContour.cumsum_biggest_until(arr, lim)
-                except IndexError:
-                    r1 = None
-                with shim.patched():
+            try:
+                with warnings.catch_warnings():
+                    warnings.simplefilter("ignore")
                     try:
-                        r2 = C.HighestDensityContour.cumsum_biggest_until(_c(arr), sym.lift(lim))
+                        r1 = C.HighestDensityContour.cumsum_biggest_until(arr, lim)
                     except IndexError:
-                        r2 = None
+                        r1 = None
+                    with shim.patched():
+                        try:
+                            r2 = C.HighestDensityContour.cumsum_biggest_until(_c(arr), sym.lift(lim))
+                        except IndexError:
+                            r2 = None
+            except Exception as e:
+                # the CURRENT tree's function cannot be executed by the encoding (e.g. it uses a numpy function without
+                # a model): not a defect of the stand-ins that are validated here - the obligations that need this
+                # function report it themselves (not decided / violation)
+                skipped.append(f"cumsum_biggest_until: {type(e).__name__}: {e}")
+                break
             if (r1 is None) != (r2 is None) or (r1 is not None and not np.array_equal(r1[0], _v(r2[0]))):
                 fails.append(f"cumsum_biggest_until {arr.ravel()} {lim}")
         for t in range(15):
             n1, n2 = int(rng.integers(2, 5)), int(rng.integers(2, 4))
             x1, y1, x2, y2 = [np.round(rng.uniform(0, 5, size=k), 2) for k in (n1, n1, n2, n2)]
             n_cases += 1
-            r = I.intersection(x1, y1, x2, y2)
-            with shim.patched():
-                rs = I.intersection(_c(x1), _c(y1), _c(x2), _c(y2))
+            try:
+                r = I.intersection(x1, y1, x2, y2)
+                with shim.patched():
+                    rs = I.intersection(_c(x1), _c(y1), _c(x2), _c(y2))
+            except Exception as e:
+                skipped.append(f"intersection: {type(e).__name__}: {e}")
+                break
             xs = np.sort(np.atleast_1d(_v(rs[0]))) if len(rs[0]) else np.array([])
             if len(xs) != len(r[0]) or not np.allclose(xs, np.sort(r[0]), rtol=1e-9):
                 fails.append(f"intersection {x1} {y1} {x2} {y2}")
@@ -186,11 +202,14 @@ def run(seed=0):
         Iv = shim.mod("intervals")
         data = np.arange(0.5, 10, 1.0)
         n_cases += 1
-        r = Iv.WidthOfIntervalSlicer(1.0, min_n_points=1).slice_(data)
-        with shim.patched():
-            rs = Iv.WidthOfIntervalSlicer(1.0, min_n_points=1).slice_(_c(data))
-        if len(r[0]) != len(rs[0]) or not all(np.array_equal(np.asarray(m1), np.asarray(_v(m2)).astype(bool)) for m1, m2 in zip(r[0], rs[0])):
-            fails.append("WidthOfIntervalSlicer on the repository's test vector")
+        try:
+            r = Iv.WidthOfIntervalSlicer(1.0, min_n_points=1).slice_(data)
+            with shim.patched():
+                rs = Iv.WidthOfIntervalSlicer(1.0, min_n_points=1).slice_(_c(data))
+            if len(r[0]) != len(rs[0]) or not all(np.array_equal(np.asarray(m1), np.asarray(_v(m2)).astype(bool)) for m1, m2 in zip(r[0], rs[0])):
+                fails.append("WidthOfIntervalSlicer on the repository's test vector")
+        except Exception as e:
+            skipped.append(f"WidthOfIntervalSlicer: {type(e).__name__}: {e}")
     finally:
         E.end_path()
         sym.set_engine(None)
@@ -210,6 +229,7 @@ def run(seed=0):
         mo, st2 = fp.np_linspace_model(lo, hi, k)
         if not np.array_equal(r, mo) or st != st2:
             fails.append(f"FP linspace model {lo} {hi} {k}")
+    SKIPPED[:] = skipped        # reported separately; not failures of the stand-ins
     return n_cases, fails
 
 
